@@ -442,8 +442,94 @@ mod real {
         Value::Object(out)
     }
 
+
+    // ---------------------------------------------------------------- pauses (C13)
+    // The same bytes with and without a long silence between two segments, over kernel
+    // sockets (the in-memory network has no kernel timeouts to trip over): what the
+    // application gets and what the client gets back must not depend on the pause.
+
+    fn pause_case(unix: bool, case: &str, pause: Duration, idx: usize) -> Value {
+        let big = "z".repeat(3000);
+        let (part1, part2): (Vec<u8>, Vec<u8>) = match case {
+            "inside-head" => (b"GET /a HTTP/1.1\r\nHo".to_vec(), b"st: t\r\n\r\n".to_vec()),
+            "inside-small-body" => (b"POST /a HTTP/1.1\r\nHost: t\r\nContent-Length: 10\r\n\r\n01234".to_vec(), b"56789".to_vec()),
+            "between-requests" => (b"GET /a HTTP/1.1\r\nHost: t\r\n\r\n".to_vec(), b"GET /b HTTP/1.1\r\nHost: t\r\n\r\n".to_vec()),
+            "inside-chunked-body" => (b"POST /a HTTP/1.1\r\nHost: t\r\nTransfer-Encoding: chunked\r\n\r\n5\r\nhello\r\n".to_vec(), b"3\r\nabc\r\n0\r\n\r\n".to_vec()),
+            _ => (
+                format!("POST /a HTTP/1.1\r\nHost: t\r\nContent-Length: 3000\r\n\r\n{}", &big[..1500]).into_bytes(),
+                big[1500..].as_bytes().to_vec(),
+            ),
+        };
+        let path = std::env::temp_dir().join(format!("verif-realsock-{}-pause-{}.sock", std::process::id(), idx));
+        let _ = std::fs::remove_file(&path);
+        let server = Arc::new(if unix { Server::http_unix(&path).unwrap() } else { Server::http("127.0.0.1:0").unwrap() });
+        let delivered: Arc<Mutex<Vec<String>>> = Arc::new(Mutex::new(Vec::new()));
+        let (s2, d2) = (server.clone(), delivered.clone());
+        let app = std::thread::spawn(move || {
+            while let Ok(mut rq) = s2.recv() {
+                let mut body = Vec::new();
+                let r = rq.as_reader().read_to_end(&mut body);
+                d2.lock().unwrap().push(format!("{} {} body={} read_error={:?}", rq.method(), rq.url(), body.len(), r.err().map(|e| e.kind())));
+                let _ = rq.respond(Response::from_string("ok"));
+            }
+        });
+        let mut sock = if unix {
+            Sock::Unix(UnixStream::connect(&path).unwrap())
+        } else {
+            Sock::Tcp(TcpStream::connect(server.server_addr().to_ip().unwrap()).unwrap())
+        };
+        let _ = sock.write_all(&part1);
+        std::thread::sleep(pause);
+        let w2 = sock.write_all(&part2).is_ok();
+        // read until the server has been silent for a second
+        sock.set_timeout(Duration::from_millis(1000));
+        let mut got = Vec::new();
+        let mut buf = [0u8; 4096];
+        let mut eof = false;
+        loop {
+            match sock.read(&mut buf) {
+                Ok(0) => {
+                    eof = true;
+                    break;
+                }
+                Ok(n) => got.extend_from_slice(&buf[..n]),
+                Err(_) => break,
+            }
+        }
+        let st = verif_harness::httpparse::parse_stream(&got, &[]);
+        let statuses: Vec<u16> = st.msgs.iter().map(|m| m.status).collect();
+        server.unblock();
+        let _ = app.join();
+        drop(sock);
+        let d = delivered.lock().unwrap().clone();
+        let _ = std::fs::remove_file(&path);
+        json!({"transport": if unix { "unix" } else { "tcp" }, "case": case, "pause_ms": pause.as_millis() as u64,
+               "delivered": d, "statuses": statuses, "end_of_stream_seen": eof, "second_part_written": w2})
+    }
+
+    fn pauses(secs: u64) {
+        let cases = ["inside-head", "inside-small-body", "between-requests", "inside-chunked-body", "inside-large-body"];
+        let mut hs = Vec::new();
+        let mut idx = 0;
+        for unix in [false, true] {
+            for case in cases {
+                for pause in [Duration::from_millis(50), Duration::from_secs(secs)] {
+                    idx += 1;
+                    let i = idx;
+                    hs.push(std::thread::spawn(move || pause_case(unix, case, pause, i)));
+                }
+            }
+        }
+        let rows: Vec<Value> = hs.into_iter().map(|h| h.join().unwrap_or(json!({"error": "case panicked"}))).collect();
+        println!("{}", json!({"pause_rows": rows}));
+    }
+
     pub fn main() {
-        let file = std::env::args().nth(1).expect("usage: realsock <scenarios.json>");
+        if std::env::args().nth(1).as_deref() == Some("--pauses") {
+            pauses(std::env::args().nth(2).and_then(|s| s.parse().ok()).unwrap_or(65));
+            return;
+        }
+        let file = std::env::args().nth(1).expect("usage: realsock <scenarios.json> | --pauses <seconds>");
         let v: Value = serde_json::from_str(&std::fs::read_to_string(&file).expect("read")).expect("json");
         let list = v.as_array().expect("array").clone();
         let results: Arc<Mutex<Vec<Option<Value>>>> = Arc::new(Mutex::new(vec![None; list.len()]));
